@@ -89,7 +89,21 @@ def run(f, fixture, rep, cfg, tier):
             rep.check(excl, "R2", "%s|unique|%s" % (fmt_key(b.path), tag), "%s is emitted on mutually exclusive paths only" % tag,
                       "%s can be emitted twice into the same header (%d sites on one path)" % (tag, len(cs)), cs[0].loc())
         rep.count("entry_sites_" + fmt_key(b.path).rsplit("::", 1)[-1], len(ents))
-    # scriptlet tags through apply(): families are distinct constants (checked in C06); phi-tag in signature header is RSA|DSA exclusive
+    # scriptlet tags reach the header through Scriptlet::apply(records, offset, <family>_TAGS): the families' tags must be pairwise
+    # distinct and distinct from every tag prepare_data emits itself, else two index entries carry the same tag
+    fam = {}
+    for cname, c in f.consts.items():
+        if cname.endswith("_TAGS") and "IndexTag" in (c.get("ty") or ""):
+            fam[cname.rsplit("::", 1)[-1]] = re.findall(r"RPMTAG_\w+", c.get("value") or "")
+    rep.floor("R2", "scriptlet tag families (<X>_TAGS constants)", len(fam), 9)
+    seen = {}
+    direct = {tag for tag, _d, _c in index_entries(pd, tp)}
+    for name in sorted(fam):
+        for tag in fam[name]:
+            dup = seen.get(tag) or ("prepare_data" if tag in direct else None)
+            rep.check(dup is None, "R2", "script-tags|distinct|%s|%s" % (name, tag), "%s of %s is used by no other emitter" % (tag, name),
+                      "%s appears in %s and in %s: a package using both gets two index entries with the same tag" % (tag, name, dup))
+            seen.setdefault(tag, name)
 
     # ---- R3 alignment ---------------------------------------------------------------------------------
     ap = f.one("header::IndexData::append")
